@@ -64,17 +64,17 @@ fn alg1_harness<const N: usize>(aes: bool) {
     std::mem::forget(r);
 }
 #[kani::proof]
-#[kani::unwind(50)]
+#[kani::unwind(98)]
 fn c06_alg1_rc4_key40() {
     alg1_harness::<5>(false);
 }
 #[kani::proof]
-#[kani::unwind(50)]
+#[kani::unwind(98)]
 fn c06_alg1_rc4_key128() {
     alg1_harness::<16>(false);
 }
 #[kani::proof]
-#[kani::unwind(50)]
+#[kani::unwind(98)]
 fn c06_alg1_aes_key128() {
     alg1_harness::<16>(true);
 }
